@@ -42,8 +42,20 @@ def str_concat(parts):
 
 
 # ---------------------------------------------------------------- int(s, base)
+_DV_CACHE: dict = {}
+
+
 def digit_value(c, base, ascii_only=False):
     """(valid-term, value-term) of one character as a digit of `base` (c: z3 Int)."""
+    key = (c.get_id(), base, ascii_only)
+    ent = _DV_CACHE.get(key)
+    if ent is None or not ent[0].eq(c):
+        ent = (c,) + _digit_value(c, base, ascii_only)
+        _DV_CACHE[key] = ent
+    return ent[1], ent[2]
+
+
+def _digit_value(c, base, ascii_only=False):
     _init_tables()
     cases = [(z3.And(c >= 48, c <= 48 + min(base, 10) - 1), c - 48)]
     if base > 10:
